@@ -302,7 +302,7 @@ var ruleEntry = &Rule{
 				}
 			}
 			if len(cores) == 2 {
-				if cores[0].Call.StaticCallee() == cores[1].Call.StaticCallee() {
+				if cores[0].Call.StaticCallee() == cores[1].Call.StaticCallee() && len(cores[0].Call.Args) >= 3 && len(cores[1].Call.Args) >= 3 {
 					k0 := p.shapeOf(cores[0].Call.Args[2]).Kind
 					k1 := p.shapeOf(cores[1].Call.Args[2]).Kind
 					if k0 != "nil" && k1 == "nil" {
